@@ -1805,6 +1805,22 @@ def _k(ctx):
     return Item('proc:var', [p], 'procedure')
 
 
+@kind('proc:var-named-types')
+def _k(ctx):
+    """VAR / by-value parameters of defined, entity and simple types; neighbours often share the type object
+    (the fixed matrix of vf/c07_lists.py enumerates the small shapes; this draws longer lists)"""
+    r = ctx.rnd
+    tn, en = ctx.nm('t'), ctx.nm('e')
+    pool = [NAMED(tn), NAMED(en), INT, AGG('list', NAMED(en), I(1), INDET), ('generic', None), ('aggregate', None, ('generic', None))]
+    ps, t = [], r.choice(pool)
+    for i in range(r.randrange(2, 9)):
+        if r.random() < 0.4:
+            t = r.choice(pool)
+        ps.append((r.random() < 0.5, 'a%d' % i, t))
+    p = ('procedure', ctx.nm('p'), tuple(ps), None, (('z', INT, None),), (('assign', V('z'), I(2)),))
+    return Item('proc:var-named-types', [('type', tn, STR, ()), mk_entity(en, attrs=[(V('x'), False, INT)]), p], 'procedure')
+
+
 @kind('proc:no-params')
 def _k(ctx):
     p = ('procedure', ctx.nm('p'), (), None, (('z', INT, None),), (('assign', V('z'), I(2)),))
